@@ -42,7 +42,11 @@ def verdict(out_items, leftover, exc, tags):
     """the C06 oracle on what the transport saw"""
     out = conc(out_items)
     if exc is not None:
-        return 'the connection task ended with %s: %s' % (type(exc).__name__, str(exc)[:80])
+        try:
+            text = str(exc)[:80]
+        except TypeError:         # the message holds symbolic text
+            text = ''
+        return 'the connection task ended with %s: %s' % (type(exc).__name__, text)
     if b'[SERVERBUG]' in out:
         return 'internal-error BYE'
     lines = out.split(b'\r\n')
@@ -142,6 +146,34 @@ def h_nesting(g_ref, which, depth, nsym):
                 eng.add((body.items[nsym - k].t != 0x7d) | (body.items[nsym - k - 1].t != 0x2b))
         wit = lambda m: {'which': which, 'depth': depth, 'tail': bytes(body.eval(m)).hex()}  # noqa: E731
         err = nesting_scenario(g, g['_sim'], _conn, which, depth, body.items, lambda items: SymBytes(items, 'bytes'))
+        return Outcome(err is None, witness=wit, info=err)
+    return fn
+
+
+# ------------------------------------------------------------------ continuation data of IDLE
+def idle_line_scenario(g, sim, conn_mod, line_items, mk=bytes):
+    """IDLE, then an arbitrary line where DONE is expected (any bytes but LF, then LF), then NOOP: IDLE gets its tagged
+    result (OK for DONE, BAD otherwise - which of the two is C16's business) and the next command is served"""
+    line = mk(list(line_items) + [10]) if not isinstance(line_items, (bytes, bytearray)) else bytes(line_items) + b'\n'
+    out, leftover, exc = run_lines(g, sim, conn_mod, [b'l LOGIN testuser testpass\r\n', b's SELECT INBOX\r\n', b'i IDLE\r\n',
+                                                      line, b'n NOOP\r\n'])
+    return verdict(out, leftover, exc, [b's', b'i', b'n'])
+
+
+def h_idle_line(g_ref, n):
+    def fn(eng):
+        from pysymex import fresh_bytes, SymBytes, Outcome
+        from checks import _conn
+        body = fresh_bytes(eng, 'b', n)
+        for c in body.items:
+            eng.add(c.t != 10)
+        # a line that itself announces a non-synchronizing literal ("...{n+}") makes the reader take the following
+        # bytes as that literal: the NOOP line is then part of this line, which is not the subject here
+        for k in (1, 2):
+            if n >= k + 1:
+                eng.add((body.items[n - k].t != 0x7d) | (body.items[n - k - 1].t != 0x2b))
+        wit = lambda m: {'line': bytes(body.eval(m)).hex()}  # noqa: E731
+        err = idle_line_scenario(g_ref, g_ref['_sim'], _conn, body.items, lambda items: SymBytes(items, 'bytes'))
         return Outcome(err is None, witness=wit, info=err)
     return fn
 
@@ -298,6 +330,10 @@ def replay(harness, w):
     if harness == 'deepmsg':
         from checks import _sim, _conn
         err = deep_scenario(bindings(), _sim, _conn, w['kind'], w['depth'], bytes.fromhex(w['tail']))
+        return {'violates': err is not None, 'detail': err, 'category': (err or '')[:70]}
+    if harness == 'idleline':
+        from checks import _sim, _conn
+        err = idle_line_scenario(bindings(), _sim, _conn, bytes.fromhex(w['line']))
         return {'violates': err is not None, 'detail': err, 'category': (err or '')[:70]}
     if harness == 'msgheaders':
         from checks import _sim, _conn
